@@ -654,6 +654,7 @@ package quic
 //@   fresh
 //@   modifies nothing
 //@ extern clienthellod.ReadAllFrames
+//@   ensures [fresh-list] cap(result0) == 0 || isfresh(result0)
 //@   modifies nothing
 
 //@ func validateInitialFlight
@@ -1148,3 +1149,83 @@ package quic
 //@   invariant 0 <= rangeidx && rangeidx <= len(qtp.TransportParameters) && len(ids) == rangeidx && isfresh(ids)
 //@   invariant forall(k, 0, len(ids), canonicalTPID(ids[k]))
 //@   modifies ids[*]
+
+// ---------------- API used by the HTTP/3 layer ----------------
+//@ func (s *ReceiveStream) StreamID
+//@   props C18
+//@   ensures result == s.streamID
+//@   modifies nothing
+//@ func (c *Conn) CloseWithError
+//@   trusted hands the close request to the connection's run loop (channels, context): outside the sequential subset; writes no stream or HTTP/3 state
+//@   modifies nothing
+
+// ---------------- re-framing one Initial packet through a per-datagram builder (C09: true offsets) ----------------
+// The slice handed to the builder is the reassembled CRYPTO data of this packet; the base offset handed with it must be
+// the absolute stream offset of that slice's first byte, i.e. the LOWEST offset among the packet's CRYPTO frames (the
+// retransmission queue does not keep them in ascending order), and 0 if there is none.
+//@ extern clienthellod.ReassembleCRYPTOFrames
+//@   modifies nothing
+//@ iface (fb quic.QUICFrameBuilder) Build
+//@   modifies nothing
+//@ iface (fb quic.QUICFrameBuilderEx) BuildForDatagram
+//@   modifies nothing
+//@ iface (fb quic.QUICFrameBuilderEx) Build
+//@   modifies nothing
+//@ func (qfs QUICFrames) Build
+//@   trusted serialises PADDING/PING/CRYPTO frames (byte output; covered by the bounded stand-in initial-framing)
+//@   modifies nothing
+//@ func (p *uPacketPacker) MarshalInitialPacketPayload
+//@   props C09
+//@   requires p.uSpec != nil && p.uSpec.InitialPacketSpec.FrameBuilder != nil && p.initialDatagramIdx >= 0 && p.initialDatagramIdx < 1000000
+//@   let base = callarg("(quic.QUICFrameBuilderEx).BuildForDatagram", 0, 3)
+//@   let viaEx = called("(quic.QUICFrameBuilderEx).BuildForDatagram") == 1
+//@   ensures [base-offset-not-above-any-crypto-frame] implies(viaEx, forall(k, 0, len(qchframes), implies(typeis(qchframes[k], *clienthellod.CRYPTO), base <= dyn(qchframes[k], *clienthellod.CRYPTO).Offset)))
+//@   ensures [base-offset-is-a-crypto-frame-offset-or-zero] implies(viaEx, base == 0 || exists(k, 0, len(qchframes), typeis(qchframes[k], *clienthellod.CRYPTO) && base == dyn(qchframes[k], *clienthellod.CRYPTO).Offset))
+//@   ensures [one-datagram-per-call] implies(viaEx, p.initialDatagramIdx == old(p.initialDatagramIdx) + 1 && callarg("(quic.QUICFrameBuilderEx).BuildForDatagram", 0, 1) == old(p.initialDatagramIdx))
+//@   ensures [after-the-flight-frames-pass-through] implies(old(p.flightPlanned), called("(quic.QUICFrameBuilderEx).BuildForDatagram") == 0 && called("(quic.QUICFrameBuilder).Build") == 0 && p.initialDatagramIdx == old(p.initialDatagramIdx))
+//@   modifies p.initialDatagramIdx, elems(uint8), elems(clienthellod.QUICFrame), elems(QUICFrame)
+//@ loop (p *uPacketPacker) MarshalInitialPacketPayload #0
+//@   modifies elems(uint8)
+//@ loop (p *uPacketPacker) MarshalInitialPacketPayload #1
+//@   modifies elems(uint8)
+//@ loop (p *uPacketPacker) MarshalInitialPacketPayload #2
+//@   invariant 0 <= rangeidx && rangeidx <= len(qchframes)
+//@   invariant forall(k, 0, rangeidx, implies(typeis(qchframes[k], *clienthellod.CRYPTO), baseOffset <= dyn(qchframes[k], *clienthellod.CRYPTO).Offset))
+//@   invariant baseOffset == 18446744073709551615 || exists(k, 0, rangeidx, typeis(qchframes[k], *clienthellod.CRYPTO) && baseOffset == dyn(qchframes[k], *clienthellod.CRYPTO).Offset)
+//@   modifies nothing
+//@ loop (p *uPacketPacker) MarshalInitialPacketPayload #3
+//@   modifies elems(QUICFrame)
+
+// ---------------- the first AUTHENTICATED long-header packet fixes the peer's connection ID (C13) ----------------
+// A server creates the connection from the header of the first Initial it sees, before that packet is authenticated; a
+// forged first Initial may therefore have planted a wrong source connection ID. Whatever was recorded, the first packet
+// that passes AEAD authentication (this function is only reached after unpacking succeeded) makes the peer's connection ID
+// the one in ITS header — on the client (the server may pick a new ID) and on the server alike; later packets never change it.
+//@ func (c *Conn) dropEncryptionLevel
+//@   trusted drops one packet number space in both handlers, the crypto stream and the keys; touches none of the connection-ID fields
+//@   modifies c.droppedInitialKeys
+//@ func startedConnectionEvent
+//@   trusted qlog only
+//@   modifies nothing
+//@ func (c *Conn) handleFrames
+//@   trusted the frame loop of the connection (dispatches every frame type); examined here only up to this call
+//@   modifies everything
+//@ iface (c quic.sendConn) LocalAddr
+//@   modifies nothing
+//@ iface (c quic.sendConn) RemoteAddr
+//@   modifies nothing
+//@ func (c *Conn) handleUnpackedLongHeaderPacket
+//@   props C13
+//@   opt cutbefore (*Conn).handleFrames
+//@   opt prune yes
+//@   requires packet != nil && packet.hdr != nil && c.connIDManager != nil && c.config != nil && c.conn != nil
+//@   requires implies(!c.receivedFirstPacket, c.connIDManager.activeSequenceNumber == 0) && (c.perspective == protocol.PerspectiveClient || c.perspective == protocol.PerspectiveServer)
+//@   let first = !old(c.receivedFirstPacket)
+//@   let same = c.handshakeDestConnID.l == packet.hdr.SrcConnectionID.l && forall(k, 0, 20, c.handshakeDestConnID.b[k] == packet.hdr.SrcConnectionID.b[k])
+//@   let sameBefore = old(c.handshakeDestConnID.l) == packet.hdr.SrcConnectionID.l && forall(k, 0, 20, old(c.handshakeDestConnID.b[k]) == packet.hdr.SrcConnectionID.b[k])
+//@   ensures [first-authenticated-packet-fixes-the-peers-connection-id] implies(first, same)
+//@   ensures [connection-id-manager-follows] implies(first, called("(*connIDManager).ChangeInitialConnID") == ite(sameBefore, 0, 1))
+//@   ensures [later-packets-never-change-it] implies(!first, c.handshakeDestConnID.l == old(c.handshakeDestConnID.l) && forall(k, 0, 20, c.handshakeDestConnID.b[k] == old(c.handshakeDestConnID.b[k])) && called("(*connIDManager).ChangeInitialConnID") == 0)
+//@   ensures [marked] c.receivedFirstPacket
+//@   ensures [server-drops-initial-keys-on-first-handshake-packet] implies(c.perspective == protocol.PerspectiveServer && packet.encryptionLevel == protocol.EncryptionHandshake && !old(c.droppedInitialKeys), called("(*Conn).dropEncryptionLevel") == 1)
+//@   modifies everything
